@@ -401,6 +401,9 @@ func (eng *Engine) verifyFunc(p *packages.Package, key string) (*FuncVerifier, e
 		n := fv.fresh("gv_"+g, ghostSort(eng.contracts.GhostVars[g]))
 		st.ghost[g] = Val{T: n, Sort: ghostSort(eng.contracts.GhostVars[g])}
 		fv.entry.ghost[g] = st.ghost[g]
+		if eng.contracts.GhostVars[g] == "nat" {
+			fv.assumeGlobal("(>= " + n + " 0)") // a ghost counter
+		}
 	}
 	// heaps mentioned so far belong to the entry state
 	for h, t := range st.heaps {
